@@ -105,6 +105,36 @@ def loan_bracket(ck, prog, kind):
     ck.require(n >= 1, 'no Ok path for after_trade')
 
 
+def loan_bracket2(ck, prog, kind):
+    """two real steps: flash_loan, then (after the borrower did anything, i.e. an arbitrary balance) the AfterTrade message that
+    flash_loan itself emitted.  Balance net of pending fees must not end below its value before the loan."""
+    k = kind[0]; A = ASSET_NAME[kind]
+    def body(it):
+        c = it.ctx
+        st = setup_vault(it, kind, counter=0)
+        loan = c.sym('loan', 128); c.assume(st['F'] <= st['B']); c.assume(loan <= st['B'])
+        c.assume(st['at'] + loan < 2**128); c.assume(st['ab'] + loan < 2**128); c.assume(st['F'] + loan < 2**128)
+        env = mk_env(it, 10**18)
+        r = enter(it, 'vault', 'execute', env, mk_info('borrower', []), it.mkv(VX, 'FlashLoan', amount=U128(loan), msg=BIN(Str('x'))))
+        if r.variant != 'Ok': raise PathPruned()
+        cb = [e for e in effects(r.fields[0], VAULT) if e.kind == 'call' and same(e.asset, VAULT)][0].msg
+        newb = c.sym('balance_after_callback', 128)
+        if kind == 'native': it.world.bank = [(a, d, newb) for a, d, x in it.world.bank]
+        else: it.world.cw20 = [(t, h, newb) for t, h, x in it.world.cw20]
+        it.extra = dict(st=st, newb=newb)
+        return enter(it, 'vault', 'execute', env, mk_info(VAULT, []), cb)
+    n = 0
+    for p in ck.explore(prog, body, 'loan_bracket2.' + k):
+        if not p.ok: continue
+        n += 1
+        st = p.extra['st']; newb = p.extra['newb']
+        eff = effects(resp_of(p), VAULT)
+        out = total(eff, 'burn', A) + total(eff, 'send', A)
+        ck.oblige('C05.loan.bracket2.price.' + k, p, (newb - out) - vledger(p, 'collected_protocol_fees') < st['B'] - st['F'],
+                  'flash_loan followed by its own AfterTrade (anything in between): balance net of pending fees does not fall')
+    ck.require(n >= 1, 'loan_bracket2: no Ok path')
+
+
 def roundtrip(ck, prog, kind):
     k = kind[0]; A = ASSET_NAME[kind]
     def body(it):
@@ -132,7 +162,7 @@ def main():
     prog = ck.program('vault', 'white_whale_std')
     for kind in ('native', 'cw20'):
         deposit_step(ck, prog, kind, True); deposit_step(ck, prog, kind, False)
-        withdraw_step(ck, prog, kind); collect_step(ck, prog, kind); loan_bracket(ck, prog, kind)
+        withdraw_step(ck, prog, kind); collect_step(ck, prog, kind); loan_bracket(ck, prog, kind); loan_bracket2(ck, prog, kind)
         roundtrip(ck, prog, kind)
     update_fees_step(ck, prog, 'native')
     ck.bounds.update(assets='native and cw20 vault asset, cw20 share token', widths='balance, ledger, supply, amounts full u128; fee shares any valid triple',
